@@ -192,9 +192,13 @@ async fn child_async(seed: u64, n: u64) -> std::result::Result<Value, String> {
     }
     stats.insert("replier/rounds", rounds);
     stats.insert("replier/listen_returned_err", listen_errs);
+    // ---------------- streams finished in the middle of a frame ----------------------------------------
+    let (cuts, cut_findings) = super::wirepeers::c06_stream_cuts(addr, &certs).await?;
+    stats.insert("stream_cuts", cuts);
+    let cut_findings: Vec<Value> = cut_findings.into_iter().map(|(s, d)| json!({"sig": s, "detail": d})).collect();
     server.stop();
     let panics: Vec<Value> = repo_panics_since(mark).into_iter().map(|p| json!({"thread": p.thread, "location": p.location, "message": p.message})).collect();
-    Ok(json!({"stats": stats, "panics": panics}))
+    Ok(json!({"stats": stats, "panics": panics, "findings": cut_findings}))
 }
 
 /// child mode
@@ -234,7 +238,7 @@ pub fn run(rep: &mut StageReport, tier: &str, seed: u64, exe: &str) {
     let stderr = String::from_utf8_lossy(&output.stderr).to_string();
     let report: Option<Value> = std::fs::read(&out).ok().and_then(|b| serde_json::from_slice(&b).ok());
     let _ = std::fs::remove_file(&out);
-    rep.evaluations += 2 * n + n.min(300) + n.min(40);
+    rep.evaluations += 2 * n + n.min(300) + n.min(40) + 40;
     match report {
         None => {
             use std::os::unix::process::ExitStatusExt;
@@ -275,7 +279,14 @@ pub fn run(rep: &mut StageReport, tier: &str, seed: u64, exe: &str) {
                 let detail = format!("a consuming client panicked at {} on a hostile payload routed through the server: {}", loc, p["message"].as_str().unwrap_or(""));
                 rep.violation(Violation { signature: format!("C06/l3/consumer-panic/{}", crate::routersim::exec::normalise_location(loc)), detail, replay: String::new() });
             }
-            if panics.is_empty() {
+            let extra = v.get("findings").and_then(|p| p.as_array()).cloned().unwrap_or_default();
+            for f in &extra {
+                let detail = f["detail"].as_str().unwrap_or("").to_string();
+                let sig = f["sig"].as_str().unwrap_or("finding").to_string();
+                let replay = write_replay("C06", &format!("l3-{}", sig.replace('/', "_")), seed, json!({"property": "C06", "detail": detail}));
+                rep.violation(Violation { signature: format!("C06/l3/{}", sig), detail, replay });
+            }
+            if panics.is_empty() && extra.is_empty() {
                 for i in 0..(2 * n + n.min(300) + n.min(40)) {
                     rep.distinct.insert(crate::common::mix(seed, 0xC06_0000 + i));
                 }
